@@ -605,6 +605,22 @@ Section AlgebraProofs.
     transitivity ((r' + chal r * x) - chal r * x); [ring|]. rewrite <- H2. ring.
   Qed.
 
+  (* one signer alters ONLY the challenge field E of its partial signature (R_i and s_i stay): the
+     aggregate nonce, hence the recomputed challenge, is unchanged, and because Aggregate compares
+     the E of EVERY partial signature with it, the aggregator refuses *)
+  Lemma aggregate_e_bound : forall x ps1 id p ps2 e' r s,
+    aggregate A chal x (ps1 ++ (id, p) :: ps2) = Some (r, s) -> e' <> p_e A p ->
+    aggregate A chal x (ps1 ++ (id, mkP A e' (p_r A p) (p_s A p)) :: ps2) = None.
+  Proof.
+    intros x ps1 id p ps2 e' r s H Hne. unfold aggregate in *.
+    rewrite !map_app in *. cbn [map snd p_r p_s] in *.
+    rewrite forallb_app in *. cbn [forallb snd p_e] in *.
+    match type of H with context [chal ?r0] => set (R0 := r0) in * end.
+    destruct (forallb (fun ip : N * psig A => aeqb A (p_e A (snd ip)) (chal R0)) ps1); [|reflexivity].
+    destruct (aeqb A (p_e A p) (chal R0)) eqn:E; [|simpl in H; discriminate].
+    apply eqb_spec in E.
+    rewrite (reqb_false e' (chal R0)) by congruence. reflexivity.
+  Qed.
   End Chal.
 
   (* the cosigning aggregator's per-sender checks bind R_i and s_i of every partial signature *)
